@@ -9,8 +9,8 @@ from props import _worldfam as F
 
 PID = 'C11'
 GENERATORS = ['consts']
-LEAN_TARGETS = ['EosProofs.Props.C11', 'EosProofs.Props.C11World']
-DRIVERS = ['drv_world']
+LEAN_TARGETS = ['EosProofs.Props.C11', 'EosProofs.Props.C11World', 'EosProofs.Props.C11Keyed']
+DRIVERS = ['drv_world', 'drv_keyed']
 TRUSTED = F.WORLD_TRUSTED
 RULE = ('after each generated history (all parameter sets incl. fleets and source switches) everything is removed in a '
         'random order (K1-safe: targets cleared and fleet boosters switched off first, themselves in random order) and '
@@ -26,13 +26,13 @@ ASSUMPTIONS = ['tear-down stays outside the class of known finding K1 (an item r
 CLAUSES = {
     'nothing removed influences what remains': 'the Lean spec is a function of the current configuration only (removed_item_no_influence, evalAll_no_items); impl tied to it per step (L1/L2)',
     'removed items and fits can be reused with from-scratch results': 'correspondence: re-used items vs Lean spec; machine level: C01 incremental_eq_scratch',
-    'no service, register, subscription, override or cache retains any entry': 'message-level model: after the canonical tear-down of every item the dynamic state is empty on the configuration, hence every declarative register content (specs, affectees, direct sets, deps) and every cache entry is empty, and the tear-down is a legal run when projectors let go first (C11World.teardown_all_registers_empty, registers_empty, teardown_all_legal, history_then_teardown); the concrete buckets of affection.py / projection.py, restriction / stat registers and subscriptions: impl-level emptiness walk (enumeration)',
+    'no service, register, subscription, override or cache retains any entry': 'register level: KeyedStorage (the dict-of-sets all registers are made of) keeps exactly the entries added and not yet removed and no key without a member, after every call history (C11Keyed.inv_run, mem_bucket_*, noEmpty_run, run_no_residue, mem_keys_iff_bucket, rmSet_key_clean), tied to the real class by a per-call differential; message-level model: after the canonical tear-down of every item the dynamic state is empty on the configuration, hence every declarative register content (specs, affectees, direct sets, deps) and every cache entry is empty, and the tear-down is a legal run when projectors let go first (C11World.teardown_all_registers_empty, registers_empty, teardown_all_legal, history_then_teardown); the concrete buckets of affection.py / projection.py, restriction / stat registers and subscriptions: impl-level emptiness walk (enumeration)',
 }
 LEVEL_TEXT = ('Lean: values are functions of the current configuration (an item outside it cannot influence anything; '
               'an empty configuration has an empty value table). Residue freedom itself is checked on the real code by '
               'a generic emptiness walk after randomised complete tear-downs, and re-use of removed items against the spec.')
 LEVEL_NOTE = 'Registers are modelled by their declarative content (what they select); emptiness of the concrete Python buckets and subscriptions is enumeration over generated histories; same trusted base as C01.'
-TECHNIQUE = 'Lean 4 spec lemmas (configuration-functionality) + differential re-use check + emptiness walk'
+TECHNIQUE = 'Lean 4 spec lemmas (configuration-functionality) + register-level invariant/refinement proof for KeyedStorage with per-call differential + differential re-use check + emptiness walk'
 
 
 def _teardown(ctx, rep, pnames, n, label):
@@ -305,9 +305,98 @@ def _reuse(rep, w, items, seed, pname, h):
             return
 
 
+def _keyed_dump(ks):
+    if not ks:
+        return 'empty'
+    return ';'.join('%d:%s' % (k, ','.join(map(str, sorted(ks[k]))) or '-') for k in sorted(ks))
+
+
+def _keyed(ctx, rep, n, label='keyed'):
+    """Register level: the real `KeyedStorage` and the Lean model (`EosModel/Keyed.lean`, theorems in
+    `Props/C11Keyed.lean`) run the same call histories; the canonical dump is compared after every call, and the
+    residue statement itself (all members gone => dict empty) is checked on the real object."""
+    C.load_repo()
+    from eos.util.keyed_storage import KeyedStorage
+    rnd = ctx.sub_rnd(label)
+    lines, want, cases = [], [], []
+    for h in range(n):
+        nk, nv = rnd.choice([(2, 3), (3, 5), (6, 8)])
+        ks = KeyedStorage()
+        lines.append('new')
+        want.append('empty')
+        ops = []
+        guarded = True
+        for _ in range(rnd.randint(4, 40)):
+            k = rnd.randrange(nk)
+            r = rnd.random()
+            if r < 0.22:
+                d = [rnd.randrange(nv) for _ in range(rnd.randint(0 if rnd.random() < 0.15 else 1, 4))]
+                # the argument may be any iterable, and the very bucket stored in the register
+                ks.add_data_set(k, rnd.choice([list, tuple, set, iter])(d))
+                if not d:
+                    guarded = False
+                ops.append('as %d %s' % (k, ','.join(map(str, d)) or '-'))
+            elif r < 0.44:
+                if k in ks and rnd.random() < 0.25:
+                    d = sorted(ks[k])
+                    ks.rm_data_set(k, ks[k])          # aliasing: passed set is the stored one
+                else:
+                    d = [rnd.randrange(nv) for _ in range(rnd.randint(0, 4))]
+                    ks.rm_data_set(k, rnd.choice([list, tuple, set])(d))
+                ops.append('rs %d %s' % (k, ','.join(map(str, d)) or '-'))
+            elif r < 0.68:
+                v = rnd.randrange(nv)
+                ks.add_data_entry(k, v)
+                ops.append('ae %d %d' % (k, v))
+            elif r < 0.94:
+                v = rnd.randrange(nv)
+                ks.rm_data_entry(k, v)
+                ops.append('re %d %d' % (k, v))
+            else:
+                ks.pop(k, None)
+                ops.append('dk %d' % k)
+            lines.append(ops[-1])
+            want.append(_keyed_dump(ks))
+            if guarded and any(not b for b in ks.values()):
+                rep.violate('KeyedStorage holds an empty bucket after a history without empty add_data_set',
+                            {'keyed_ops': list(ops)})
+                return
+        # drain: remove everything that is still a member; the dict itself must be empty afterwards
+        for k in sorted(ks):
+            for v in sorted(ks[k]):
+                ops.append('re %d %d' % (k, v))
+                lines.append(ops[-1])
+                ks.rm_data_entry(k, v)
+                want.append(_keyed_dump(ks))
+        if guarded and len(ks):
+            rep.violate('KeyedStorage keeps %d keys after every member was removed' % len(ks), {'keyed_ops': list(ops)})
+            return
+        cases.append((h, ops, guarded))
+        rep.case(sig=('keyed', tuple(ops)) if len(ops) >= 8 else None, sample={'keyed_ops': ops[:12]},
+                 kind='keyed-guarded' if guarded else 'keyed-empty-add')
+    got = C.run_driver('drv_keyed', '\n'.join(lines) + '\n')
+    if len(got) != len(want):
+        raise C.InfraError('drv_keyed: %d lines for %d ops' % (len(got), len(want)))
+    pos = 0
+    for i, (g, w) in enumerate(zip(got, want)):
+        if lines[i] == 'new':
+            pos = i
+        if g != w:
+            rep.disagree('L2:keyed-storage', g, w, {'keyed_ops': lines[pos + 1:i + 1]})
+            return
+    # the excluded point of `run_no_residue` (theorem unguarded_add_creates_empty_bucket), replayed on the class
+    ks = KeyedStorage()
+    ks.add_data_set(7, ())
+    rep.dist['keyed: add_data_set(k, ()) creates an empty bucket on impl'] = int(7 in ks and not ks[7])
+    ks.rm_data_set(7, ())
+    if len(ks):
+        rep.violate('rm_data_set does not drop an empty bucket', {'keyed_ops': ['as 7 -', 'rs 7 -']})
+
+
 def correspondence(ctx):
     rep = ctx.report
     rep.rules.append(RULE)
+    _keyed(ctx, rep, ctx.n(400, 8000))
     _teardown(ctx, rep, ['basic', 'fleet', 'fleetheavy', 'projheavy', 'long', 'three-fits-decimal', 'pymods'], ctx.n(35, 700), 'teardown')
     _teardown_restr(ctx, rep, ctx.n(150, 3000))
 
@@ -357,5 +446,37 @@ def search(ctx, broken):
     _teardown(ctx, ctx.report, ['basic', 'fleet', 'noswitch-projected', 'long'], 250, 'search')
 
 
+def _replay_keyed(ops):
+    """Re-run a KeyedStorage call history on the real class and on the Lean model."""
+    C.load_repo()
+    from eos.util.keyed_storage import KeyedStorage
+    ks, want = KeyedStorage(), []
+    for op in ops:
+        t = op.split()
+        d = [] if len(t) < 3 or t[2] == '-' else [int(x) for x in t[2].split(',')]
+        k = int(t[1])
+        {'as': lambda: ks.add_data_set(k, d), 'rs': lambda: ks.rm_data_set(k, d),
+         'ae': lambda: ks.add_data_entry(k, d[0]), 're': lambda: ks.rm_data_entry(k, d[0]),
+         'dk': lambda: ks.pop(k, None)}[t[0]]()
+        want.append(_keyed_dump(ks))
+    got = C.run_driver('drv_keyed', '\n'.join(ops) + '\n')
+    bad = 0
+    for op, g, w in zip(ops, got, want):
+        print('%-14s model %-30s impl %s' % (op, g, w))
+        bad |= g != w
+    guarded = not any(o.startswith('as ') and o.endswith(' -') for o in ops)
+    if guarded and any(not b for b in ks.values()):
+        print('impl: empty bucket left')
+        bad = 1
+    return 1 if bad else 0
+
+
 def replay(path):
+    import json
+    p = C.VERIF / path if not str(path).startswith('/') else path
+    data = json.load(open(p))
+    v = data.get('violation') or (data.get('broken') or [{}])[0].get('detail')
+    case = (v or {}).get('case') if isinstance(v, dict) else None
+    if isinstance(case, dict) and 'keyed_ops' in case:
+        return _replay_keyed(case['keyed_ops'])
     return F.generic_replay(PID, path)
